@@ -581,6 +581,64 @@ def gen_patricia(rng, tier):
 	return cases
 
 
+def patricia_case(shape, what, key_nibbles, value, chain, state, root_list):
+	"""One judged `patricia` case (same dictionary as the ones gen_patricia builds)."""
+	key = bytes(key_nibbles[i] * 16 + key_nibbles[i + 1] for i in range(0, 64, 2))
+	chain = [node.detached() if node.children is not None else node for node in chain]
+	return {
+		'kind': 'patricia', 'shape': shape, 'what': what, 'key': key.hex(), 'value': value.hex(),
+		'buf': b''.join(node.serialize() for node in chain).hex(), 'nodes': [node.render() for node in chain],
+		'state': state.hex(), 'roots': [r.hex() for r in root_list], 'expect': p_verdict(key, value, chain, state, root_list),
+		'inner_paths': any(node.path for node in chain[:-1]), 'nomodel': False}
+
+
+def gen_patricia_roots(rng, tier):
+	"""The sub cache roots list as an input of its own: the state hash is SHA3-256 over ALL roots in order, whatever their value.  Lists that
+	contain the all-zero hash (the root of an empty sub cache) once, several times, next to the proven tree's root or alone; the honest
+	list with zero hashes inserted or removed while the state hash stays (no longer the hash of the list); roots one bit away from zero."""
+	zero = bytes(32)
+	cases = []
+	prefixes = list(itertools.product((0x3, 0xC), repeat=4))
+	for number in range(6 if tier == 'quick' else 80):
+		suffix = nibbles_of(rand_bytes(rng, 30))
+		if number % 3 == 2:
+			shape, items = 'random', [(nibbles_of(rand_bytes(rng, 32)), rand_bytes(rng, 32)) for _ in range(rng.randrange(2, 20))]
+		else:
+			shape, items = 'small', [(list(prefix) + suffix, rand_bytes(rng, 32)) for prefix in rng.sample(prefixes, rng.randrange(1, 5))]
+		root = build_tree(items)
+		present, value = rng.choice(items)
+		absent = list(present)
+		absent[rng.randrange(4)] = rng.choice([0x0, 0x7, 0xF])
+		lookups = [(present, value)] + ([(absent, rand_bytes(rng, 32))] if tuple(absent) not in {tuple(k) for k, _ in items} else [])
+
+		def mixed(count, zeros):
+			others = [zero] * zeros + [rand_bytes(rng, 32) for _ in range(count - zeros)]
+			rng.shuffle(others)
+			position = rng.randrange(len(others) + 1)
+			return others[:position] + [root.hash()] + others[position:]
+
+		for key_nibbles, tested in lookups:
+			chain = cut_proof(root, key_nibbles)
+			# honest: the list the state hash was made from, with empty sub caches in it
+			for roots in (mixed(rng.randrange(1, 4), 1), mixed(rng.randrange(2, 5), 2), mixed(rng.randrange(1, 3), 0)):
+				cases.append(patricia_case(shape, 'zero-roots-honest' if zero in roots else 'roots-honest', key_nibbles, tested, chain, sha3(b''.join(roots)), roots))
+		key_nibbles, tested = lookups[0]
+		chain = cut_proof(root, key_nibbles)
+		honest = mixed(rng.randrange(0, 3), 0)
+		state = sha3(b''.join(honest))
+		where = rng.randrange(len(honest) + 1)
+		cases.append(patricia_case(shape, 'zero-roots-inserted', key_nibbles, tested, chain, state, honest[:where] + [zero] * rng.randrange(1, 3) + honest[where:]))
+		with_zeros = mixed(rng.randrange(1, 4), 1)
+		cases.append(patricia_case(
+			shape, 'zero-roots-removed', key_nibbles, tested, chain, sha3(b''.join(with_zeros)), [r for r in with_zeros if r != zero]))
+		near = flip(zero, rng.randrange(256))
+		cases.append(patricia_case(shape, 'near-zero-root-dropped', key_nibbles, tested, chain, sha3(b''.join(honest)), honest + [near]))
+		cases.append(patricia_case(shape, 'near-zero-root-honest', key_nibbles, tested, chain, sha3(b''.join(honest + [near])), honest + [near]))
+		if number % 2 == 0:
+			cases.append(patricia_case(shape, 'only-zero-roots', key_nibbles, tested, chain, sha3(zero), [zero]))
+	return cases
+
+
 def corpus_cases():
 	"""Past findings kept as regression inputs (corpus/c09_*.json); they are evaluated before the generated cases."""
 	import json
@@ -1091,6 +1149,205 @@ def run_rehash(check):
 	check.extra['rehash_cases'] = len(cases)
 
 
+# ---------------------------------------------------------------------------------------------------------------------
+# ONE list of parsed node objects judged several times, with the node objects or the buffer they were parsed from changed in between
+# (self-contained family: own generator, driver and oracle; the oracle keeps its own copy of the nodes -- PNode -- and applies the same
+# changes to it, so every verdict / node hash is the one the nodes AS THEY ARE NOW imply; a change of the caller's buffer changes nothing)
+
+def parse_rendered(text):
+	"""PNode from the text form of PNode.render / render_impl_node."""
+	kind, size, path_hex, rest = text.split(':', 3)
+	nibbles = nibbles_of(bytes.fromhex(path_hex))[:int(size)]
+	if kind == 'leaf':
+		return PNode(nibbles, value=bytes.fromhex(rest))
+	node = PNode(nibbles)
+	node.link_override = [None if link == '-' else bytes.fromhex(link) for link in rest.split('/')]
+	return node
+
+
+def session_tree(rng, number):
+	prefixes = list(itertools.product((0x3, 0xC), repeat=4))
+	suffix = nibbles_of(rand_bytes(rng, 30))
+	if number % 3 == 2:
+		return [(nibbles_of(rand_bytes(rng, 32)), rand_bytes(rng, 32)) for _ in range(rng.randrange(4, 40))]
+	return [(list(prefix) + suffix, rand_bytes(rng, 32)) for prefix in rng.sample(prefixes, rng.randrange(2, 6))]
+
+
+SESSION_SCENARIOS = [
+	'sibling-link-bit', 'forged-leaf', 'buffer-zeroed', 'path-link-bit', 'buffer-reused-for-other-proof', 'links-rebound', 'link-changed-and-restored',
+	'buffer-bit-flipped', 'empty-link-filled', 'sibling-link-bit']
+SESSION_USES = [['prove'], ['prove', 'prove'], ['hash-all'], [], ['prove', 'hash-all']]
+
+
+def gen_patricia_sessions(rng, tier):
+	cases = []
+	for number in range(20 if tier == 'quick' else 400):
+		items = session_tree(rng, number)
+		root = build_tree(items)
+		scenario = SESSION_SCENARIOS[number % len(SESSION_SCENARIOS)]
+		key_nibbles, value = rng.choice(items)
+		if number % 4 == 3 and scenario not in ('forged-leaf',):
+			absent = list(key_nibbles)
+			absent[rng.randrange(4)] = rng.choice([0x0, 0x7, 0xF])
+			if tuple(absent) not in {tuple(k) for k, _ in items}:
+				key_nibbles, value = absent, rand_bytes(rng, 32)
+		chain = [node.detached() for node in cut_proof(root, key_nibbles)]
+		others = [rand_bytes(rng, 32) for _ in range(rng.randrange(0, 3))]
+		position = rng.randrange(len(others) + 1)
+		roots = others[:position] + [root.hash()] + others[position:]
+		buf = b''.join(node.serialize() for node in chain)
+		branches = [index for index, node in enumerate(chain) if not node.is_leaf]
+		uses = SESSION_USES[(number // len(SESSION_SCENARIOS) + number) % len(SESSION_USES)]
+		steps = []
+		for use in uses:
+			steps += [{'op': 'prove'}] if use == 'prove' else [{'op': 'hash', 'node': index} for index in range(len(chain))]
+		buffer_kind = 'bytearray' if scenario.startswith('buffer') or number % 2 else 'bytes'
+
+		def path_link(index):
+			"""Position of the link of chain[index] that names the next node of the chain (None for the last node)."""
+			if index + 1 >= len(chain):
+				return None
+			child_hash = chain[index + 1].hash()
+			links = chain[index].links()
+			return links.index(child_hash) if child_hash in links else None
+
+		if scenario in ('sibling-link-bit', 'path-link-bit', 'link-changed-and-restored', 'links-rebound', 'empty-link-filled'):
+			index = rng.choice(branches)
+			links = chain[index].links()
+			on_path = path_link(index)
+			if scenario == 'path-link-bit' and on_path is not None:
+				slot = on_path
+			elif scenario == 'empty-link-filled' and None in links:
+				slot = rng.choice([i for i, link in enumerate(links) if link is None])
+			else:
+				slot = rng.choice([i for i, link in enumerate(links) if link is not None and i != on_path] or [i for i, link in enumerate(links) if link])
+			changed = flip(links[slot], rng.randrange(256)) if links[slot] else rand_bytes(rng, 32)
+			if scenario == 'links-rebound':
+				rebound = [link.hex() if link else None for link in links[:slot] + [changed] + links[slot + 1:]]
+				steps.append({'op': 'assign-links', 'node': index, 'links': rebound})
+			else:
+				steps.append({'op': 'set-link', 'node': index, 'index': slot, 'hash': changed.hex()})
+			steps += [{'op': 'prove'}, {'op': 'hash', 'node': index}, {'op': 'hash', 'node': 0}]
+			if scenario == 'link-changed-and-restored':
+				steps += [{'op': 'set-link', 'node': index, 'index': slot, 'hash': links[slot].hex() if links[slot] else None}, {'op': 'prove'}]
+		elif scenario == 'forged-leaf':
+			forged = rand_bytes(rng, 32)
+			leaf_index = len(chain) - 1
+			steps.append({'op': 'set-value', 'node': leaf_index, 'value': forged.hex()})
+			if leaf_index > 0 and path_link(leaf_index - 1) is not None:
+				forged_hash = PNode(chain[leaf_index].path, value=forged).hash()
+				steps.append({'op': 'set-link', 'node': leaf_index - 1, 'index': path_link(leaf_index - 1), 'hash': forged_hash.hex()})
+			steps += [{'op': 'prove', 'value': forged.hex()}, {'op': 'prove'}]
+		elif scenario in ('buffer-zeroed', 'buffer-bit-flipped'):
+			if scenario == 'buffer-zeroed':
+				data = bytes(len(buf))
+			else:
+				data = bytearray(buf)
+				for _ in range(rng.randrange(1, 4)):
+					data[rng.randrange(len(data))] ^= 1 << rng.randrange(8)
+			steps += [{'op': 'overwrite-buffer', 'data': bytes(data).hex()}, {'op': 'prove'}, {'op': 'hash', 'node': 0}, {'op': 'hash', 'node': len(chain) - 1}]
+		else:
+			# the same keys with other values: a proof of the same length from ANOTHER tree arrives in the same receive buffer
+			other_items = [(nibbles, rand_bytes(rng, 32)) for nibbles, _ in items]
+			other_root = build_tree(other_items)
+			other_chain = [node.detached() for node in cut_proof(other_root, key_nibbles)]
+			other_buf = b''.join(node.serialize() for node in other_chain)
+			other_value = dict((tuple(k), v) for k, v in other_items).get(tuple(key_nibbles), value)
+			steps += [{'op': 'overwrite-buffer', 'data': other_buf.hex()}, {'op': 'prove'}]
+			steps.append({'op': 'prove', 'value': other_value.hex(), 'state': sha3(other_root.hash()).hex(), 'roots': [other_root.hash().hex()]})
+			steps.append({'op': 'hash', 'node': 0})
+			assert len(other_buf) == len(buf)
+		steps.append({'op': 'render'})
+		key = bytes(key_nibbles[i] * 16 + key_nibbles[i + 1] for i in range(0, 64, 2))
+		cases.append({
+			'kind': 'patricia-session', 'scenario': scenario, 'buffer': buffer_kind, 'key': key.hex(), 'value': value.hex(), 'buf': buf.hex(),
+			'nodes': [node.render() for node in chain], 'state': sha3(b''.join(roots)).hex(), 'roots': [r.hex() for r in roots], 'steps': steps})
+	return cases
+
+
+def impl_patricia_session(case):
+	from symbolchain.CryptoTypes import Hash256
+	from symbolchain.symbol import Merkle
+	buffer = bytearray.fromhex(case['buf']) if case['buffer'] == 'bytearray' else bytes.fromhex(case['buf'])
+	try:
+		nodes = Merkle.deserialize_patricia_tree_nodes(buffer)
+	except Exception as ex:  # pylint: disable=broad-except
+		return [canonical_exception(ex)] * len(case['steps'])
+	observed = []
+	for step in case['steps']:
+		try:
+			operation = step['op']
+			if operation == 'prove':
+				verdict = Merkle.prove_patricia_merkle(
+					Hash256(bytes.fromhex(case['key'])), Hash256(bytes.fromhex(step.get('value', case['value']))), nodes,
+					Hash256(bytes.fromhex(step.get('state', case['state']))), [Hash256(bytes.fromhex(r)) for r in step.get('roots', case['roots'])])
+				observed.append(str(verdict.value))
+			elif operation == 'hash':
+				observed.append(bytes(nodes[step['node']].calculate_hash().bytes).hex())
+			elif operation == 'render':
+				observed.append(';'.join(render_impl_node(node) for node in nodes))
+			else:
+				if operation == 'set-link':
+					nodes[step['node']].links[step['index']] = Hash256(bytes.fromhex(step['hash'])) if step['hash'] else None
+				elif operation == 'assign-links':
+					nodes[step['node']].links = [Hash256(bytes.fromhex(link)) if link else None for link in step['links']]
+				elif operation == 'set-value':
+					nodes[step['node']].value = Hash256(bytes.fromhex(step['value']))
+				else:
+					buffer[:] = bytes.fromhex(step['data'])    # same length: the buffer is written, never resized
+				observed.append('-')
+		except Exception as ex:  # pylint: disable=broad-except
+			observed.append(canonical_exception(ex))
+	return observed
+
+
+def oracle_patricia_session(case, out):
+	chain = [parse_rendered(text) for text in case['nodes']]
+	key = bytes.fromhex(case['key'])
+	done = []
+	for number, (step, seen) in enumerate(zip(case['steps'], out)):
+		operation = step['op']
+		if operation == 'prove':
+			roots = [bytes.fromhex(r) for r in step.get('roots', case['roots'])]
+			expected = str(p_verdict(key, bytes.fromhex(step.get('value', case['value'])), chain, bytes.fromhex(step.get('state', case['state'])), roots))
+			what = 'prove_patricia_merkle gives verdict'
+		elif operation == 'hash':
+			expected = chain[step['node']].hash().hex()
+			what = f'calculate_hash of node {step["node"]} gives'
+		elif operation == 'render':
+			expected = ';'.join(node.render() for node in chain)
+			what = 'the node objects hold'
+		else:
+			expected = '-'
+			what = f'{operation} gives'
+			if operation == 'set-link':
+				chain[step['node']].link_override[step['index']] = bytes.fromhex(step['hash']) if step['hash'] else None
+			elif operation == 'assign-links':
+				chain[step['node']].link_override = [bytes.fromhex(link) if link else None for link in step['links']]
+			elif operation == 'set-value':
+				chain[step['node']].value = bytes.fromhex(step['value'])
+		if seen != expected:
+			history = ', then '.join(done) or 'nothing'
+			return f'[{case["scenario"]}] on ONE list of {len(chain)} parsed nodes (from a {case["buffer"]}) after {history}: step {number + 1} {what} ' \
+				f'{seen[:100]}, the nodes as they are now imply {expected[:100]}'
+		done.append(operation + (f'(node {step["node"]})' if 'node' in step else ''))
+	return None
+
+
+def run_patricia_sessions(check):
+	cases = gen_patricia_sessions(check.rng, check.tier)
+	for case in cases:
+		out = impl_patricia_session(case)
+		verdicts = '/'.join(hex(int(seen)) if seen.isdigit() else seen for step, seen in zip(case['steps'], out) if step['op'] == 'prove')
+		check.case(f'patricia-session:{case["scenario"]}:{case["buffer"]}:{verdicts}:implementation-and-oracle-only', repr(sorted(case.items())))
+		problem = oracle_patricia_session(case, out)
+		if problem:
+			check.fail(f'patricia-session:{case["scenario"]}', problem, {'case': case, 'observed': out, 'how': 'run.py replay <this file>'})
+	if cases:
+		check.sample({'case': describe({k: v for k, v in cases[0].items() if k != 'steps'}), 'steps': [step['op'] for step in cases[0]['steps']]})
+	check.extra['patricia_session_cases'] = len(cases)
+
+
 def run(check, unrecognised):
 	check.trusted += [
 		'translator harness/gen.py (MerkleOps: constants/operators of 31 anchors in Merkle.py, BufferReader.py, SymbolFacade.py, NemFacade.py, '
@@ -1105,6 +1362,9 @@ def run(check, unrecognised):
 	check.extra['rule'] = 'leaf counts 0-70, 127-130, 1000 (thorough: 1000-1030, 2047-2049, 4095-4097, 5000) x positions x {honest, leaf/path/flag/root bit flips}; ' \
 		'transactions of every Symbol/NEM type x single-bit flips in each header/body region (deserialized objects and raw buffers); ' \
 		'all Patricia trees with <= 4 keys over a 2-nibble alphabet (quick: 26 of them) + random larger ones x present/absent keys x corruption classes; ' \
+		'sub cache roots lists with all-zero roots (honest; zero hashes inserted / removed under an unchanged state hash; a lone zero root; roots one bit from zero); ' \
+		'sessions on ONE list of parsed nodes: judged / hashed, then a link written in place (sibling, path link, empty slot, restored), links re-bound, a leaf value forged ' \
+		'together with its parent link, or the bytearray the nodes were parsed from zeroed / bit-flipped / refilled with a same-length proof of another tree, then judged again; ' \
 		'distinct = distinct case dictionaries; non-trivial = all but the "not-a-transaction" mutations'
 	if unrecognised.get('MerkleOps'):
 		check.notes.append(f'anchors not recognised, pinned constants used for them: {unrecognised["MerkleOps"]}')
@@ -1116,7 +1376,7 @@ def run(check, unrecognised):
 	check.extra['corpus_cases'] = len(cases)
 	cases += gen_merkle(rng, check.tier) + gen_txhash(rng, check.tier) + gen_nem(rng, check.tier) + gen_encode(rng, check.tier)
 	patricia = gen_patricia(rng, check.tier)
-	cases += patricia + gen_deser(rng, check.tier, patricia)
+	cases += patricia + gen_deser(rng, check.tier, patricia) + gen_patricia_roots(rng, check.tier)
 	outs = [impl(case) for case in cases]
 	# raw and object mode of the same mutated bytes must agree whenever the bytes are a transaction (checked through the shared oracle)
 	models = evaluate_models(cases)
@@ -1147,10 +1407,17 @@ def run(check, unrecognised):
 		f'{check.extra["deserialize_truncated_branch_probe"]}; BufferReader.read_bytes does not bound-check, so eof is never reached; '
 		'the model returns crash:out-of-fuel for it')
 	run_rehash(check)    # last, so that the case stream of the families above is unchanged
+	run_patricia_sessions(check)
 
 
 def replay(data):
 	case = data['replay']['case']
+	if case['kind'] == 'patricia-session':
+		out = impl_patricia_session(case)
+		problem = oracle_patricia_session(case, out)
+		print('observed:', out)
+		print('property:', problem or 'holds')
+		return 1 if problem else 0
 	if case['kind'] == 'rehash':
 		out = impl_rehash(case)
 		problem = oracle_rehash(case, out)
